@@ -112,9 +112,6 @@ void MainSolver::insertFormula(PTRef fla) {
         throw ApiException("Top-level assertion sort must be Bool, got " + logic.sortToString(logic.getSortRef(fla)));
     }
     OPENSMT_VERIF(verif::Scope verifScope(verifId); verif::term("A", frames.last().getId(), logic, fla));
-    // TODO: Move this to preprocessing of the formulas
-    fla = IteHandler(logic, getPartitionManager().getNofPartitions()).rewrite(fla);
-
     if (trackPartitions()) {
         // MB: Important for HiFrog! partition index is the index of the formula in an virtual array of inserted
         // formulas,
@@ -152,7 +149,9 @@ sstat MainSolver::simplifyFormulas() {
         if (context.perPartition) {
             vec<PTRef> frameFormulas;
             for (PTRef fla : frames[i].formulas) {
-                PTRef processed = theory->preprocessAfterSubstitutions(fla, context);
+                // The frame keeps the formula as asserted (names, cores and dumps refer to it); ites go only now
+                PTRef withoutItes = IteHandler(logic, pmanager.getPartitionIndex(fla)).rewrite(fla);
+                PTRef processed = theory->preprocessAfterSubstitutions(withoutItes, context);
                 pmanager.transferPartitionMembership(fla, processed);
                 frameFormulas.push(processed);
                 preprocessor.addPreprocessedFormula(processed);
@@ -177,7 +176,7 @@ sstat MainSolver::simplifyFormulas() {
                 if (status == s_False) { break; }
             }
         } else {
-            PTRef frameFormula = logic.mkAnd(frames[i].formulas);
+            PTRef frameFormula = IteHandler(logic, 0).rewrite(logic.mkAnd(frames[i].formulas));
             if (context.frameCount > 0) { frameFormula = applyLearntSubstitutions(frameFormula); }
             frameFormula = theory->preprocessBeforeSubstitutions(frameFormula, context);
             frameFormula = substitutionPass(frameFormula, context);
